@@ -248,6 +248,8 @@ def check(prog, rep):
     shared.rule_no_mutation_while_iterating(prog, rep, "R7", ["biomolecule.py::Biomolecule.set_termini", "biomolecule.py::Biomolecule.assign_termini",
                                                                "biomolecule.py::Biomolecule.__init__", "biomolecule.py::Biomolecule.update_bonds"])
     from . import c07
+    from .shared import rule_hidden_chains_model
+    rep.guarded(rule_hidden_chains_model, prog, rep, "R9")
     if not c07.ingestion_decided_on_models(prog, rep, "R8", only=("no chain identifiers",)):
         shared.rule_ter_chain_count(prog, rep, "R8")  # shape-based fallback
 
